@@ -396,7 +396,8 @@ def g_valid(rng, term, depth=3):
         if shape < 0.22:
             # near-valid shapes of the three layouts: surplus key, missing key, odd tag value
             extra_key = rng.choice(['zz', 'comment', 'extra', 1])
-            odd_tag = rng.choice([None, [1], {}, 'zzz', 1.5, True])
+            # (a tuple is hashable by type only: one that holds a list or a mapping is not, and one holding the tag is not the tag)
+            odd_tag = rng.choice([None, [1], {}, 'zzz', 1.5, True, ([tv],), (tv, {}), (tv,), ((), [])])
             if lay == 'internal':
                 d = dict(body)
                 d[tag] = tv if shape < 0.11 else odd_tag
@@ -406,7 +407,8 @@ def g_valid(rng, term, depth=3):
             if lay == 'external':
                 return rng.choice([{tv: body, extra_key: 1}, {}, {'zzz': body}, {tv: body, 'other': body}])
             return rng.choice([{lay[1]: tv, lay[2]: body, extra_key: None}, {lay[1]: tv}, {lay[2]: body},
-                               {lay[1]: 'zzz', lay[2]: body}, {lay[1]: tv, extra_key: body}, {lay[1]: [1], lay[2]: body}])
+                               {lay[1]: 'zzz', lay[2]: body}, {lay[1]: tv, extra_key: body}, {lay[1]: [1], lay[2]: body},
+                               {lay[1]: odd_tag, lay[2]: body}])
         if lay == 'internal':
             d = dict(body)
             d[tag] = tv
